@@ -141,3 +141,13 @@ func genDumpMain(args []string) {
 		fmt.Printf("  probe %-50s %d\n", k, pk[k])
 	}
 }
+
+// sessionDumpMain prints the pools and operations of one generated session.
+func sessionDumpMain(args []string) {
+	fs := flag.NewFlagSet("session-dump", flag.ExitOnError)
+	seed := fs.Uint64("seed", 1, "session seed")
+	src := fs.String("source", "gen", "source")
+	fs.Parse(args)
+	s := genSession(*seed, *src)
+	writeJSON("-", s)
+}
